@@ -15,6 +15,9 @@ RUN_FILES = ["Model/C07_run.v"]
 NAN = float("nan")
 INF = float("inf")
 STUB_PROJ = {"proj": "merc", "lon_0": 0, "ellps": "WGS84"}
+DTYPE_RANGE = {"float64": (-2 ** 52, 2 ** 52), "float32": (-2 ** 23, 2 ** 23), "int64": (-2 ** 52, 2 ** 52), "uint64": (0, 2 ** 52),
+               "uint8": (0, 255), "uint16": (0, 65535), "uint32": (0, 2 ** 32 - 1), "int8": (-128, 127), "int16": (-32768, 32767),
+               "int32": (-2 ** 31, 2 ** 31 - 1)}
 ODD_RES = [3, 5, 7, 11, 13, 49, 98, 103, 107, 161, 1000, 4000]
 REAL_AREAS = [
     ({"proj": "laea", "lat_0": 60, "lon_0": 10, "ellps": "WGS84"}, (-1.0e6, -1.2e6, 1.4e6, 0.9e6), (-25, 45, 35, 75)),
@@ -141,8 +144,23 @@ def gen_case(r, big=False, nchunkings=3):
     case["ebv"] = hexf(r.choice([0.0, 0.0, NAN, -1.0, 4095.0, 5.0]))
     case["ffill"] = hexf(r.choice([NAN, NAN, -1.0, 0.0]))
     span = r.choice([2, 4, 9, 9, 2 ** 30])
-    fdata = [float(r.randint(-span, span)) for _ in range(n)]
-    data = [float(r.randint(-span, span)) for _ in range(n)]
+    # dtype of the data arrays handed to the resampler (values are integers that the dtype holds exactly)
+    dtype = r.choice(["float64"] * 9 + ["int64", "uint8", "uint16", "uint32", "uint64", "int8", "int16", "int32", "float32"])
+    lo, hi = DTYPE_RANGE[dtype]
+    if dtype != "float64":
+        big = min(hi, r.choice([3, 9, 255, 1000, 70000]))
+        small = max(lo, -big)
+
+        def draw():
+            """zeros, repeated small values and values near the top of the range: sums of a few exceed narrow integer types"""
+            u = r.random()
+            return 0 if u < 0.25 else r.randint(small, big) if u < 0.6 else r.choice([big, big - 1, small, 1, 2])
+        span = big
+    else:
+        def draw():
+            return r.randint(-span, span)
+    fdata = [float(draw()) for _ in range(n)]
+    data = [float(draw()) for _ in range(n)]
     pm = r.choice([0.0, 0.15, 0.4])
     for i in range(n):
         if r.random() < pm:
@@ -152,7 +170,9 @@ def gen_case(r, big=False, nchunkings=3):
     u = r.random()
     if u < 0.6:                      # categorical data: few distinct values, so that all of them can be categories
         kk = r.randint(1, 4)
-        pool = r.sample(range(-span, span + 1), min(kk, 2 * span + 1))
+        pool = r.sample(range(max(lo, -span), span + 1), min(kk, span + 1 - max(lo, -span)))
+        if dtype != "float64" and 0 not in pool:
+            pool[0] = 0
         fdata = [float(r.choice(pool)) for _ in range(n)]
     vals = sorted(set(int(v) for v in fdata))
     if u < 0.2 or not vals:
@@ -160,14 +180,19 @@ def gen_case(r, big=False, nchunkings=3):
     elif u < 0.6:
         cats = vals
     else:
-        cats = sorted(set(r.sample(vals, r.randint(1, min(4, len(vals)))) + [r.randint(-span, span) for _ in range(r.randint(0, 2))]))
+        cats = sorted(set(r.sample(vals, r.randint(1, min(4, len(vals)))) + [r.randint(max(lo, -span), span) for _ in range(r.randint(0, 2))]))
     case["cats"] = cats
-    case["data"], case["fdata"] = [hexf(v) for v in data], [hexf(v) for v in fdata]
+    # the sum/average data keep the dtype only if every value (NaN, fill markers) is representable in it
+    case["dtype"] = dtype
+    case["data_dtype"] = dtype if dtype in ("float64", "float32") or all(v == v and lo <= v <= hi for v in data) else "float64"
+    # a second, different data array for the joint evaluation: the negated data, or (unsigned / narrow types) the data rotated by one
+    fdata2 = [-v for v in fdata] if all(lo <= -v <= hi for v in fdata) else fdata[1:] + fdata[:1]
+    case["data"], case["fdata"], case["fdata2"] = [hexf(v) for v in data], [hexf(v) for v in fdata], [hexf(v) for v in fdata2]
     chunkings = []
     for _ in range(nchunkings):
         chunkings.append({k: [rand_chunks(r, s) for s in shape] for k in ("coord", "data", "fdata")})
     case["chunkings"] = chunkings
-    case["variant"] = r.choice(["dask"] * 8 + ["xr", "int"])
+    case["variant"] = r.choice(["dask"] * 9 + ["xr"])
     if r.random() < 0.35:
         ops = ["count", "sum", "min", "max", "average", "fractions"]
         hist = [[r.choice(ops), r.randrange(nchunkings)] for _ in range(r.randint(2, 6))]
@@ -382,10 +407,11 @@ def judge(case, outs):
                 break
     # ---- several lazy results for DIFFERENT data on one resampler evaluated in one dask computation (second array = -fdata)
     if "joint" in o:
+        fdata2 = [unhex(v) for v in case.get("fdata2", [])] or [-v for v in fdata]
         j2 = {q: [unhex(v) for v in l] for q, l in o["joint"].items()}
         a2 = {q: [unhex(v) for v in l] for q, l in o["alone"].items()}
         for k in range(size):
-            ms = [-fdata[i] for i in members.get(k, [])]
+            ms = [fdata2[i] for i in members.get(k, [])]
             wabs = NAN
             if ms:
                 m = max(abs(v) for v in ms)
@@ -525,7 +551,7 @@ def run_impl(ctx, cases, kernels=None, shards=8):
     shards = max(1, min(shards, max(1, len(cases))))
     parts = [cases[i::shards] for i in range(shards)]
     payloads = [{"cases": [{k: c[k] for k in ("area", "mode", "xs", "ys", "shape", "data", "fdata", "fill", "skipna",
-                                                "ebv", "ffill", "cats", "chunkings", "variant", "history") if k in c} for c in p]} for p in parts]
+                                                "ebv", "ffill", "cats", "chunkings", "variant", "history", "dtype", "data_dtype", "fdata2") if k in c} for c in p]} for p in parts]
     if kernels is not None:
         payloads[0]["kernels"] = [[hexf(a), hexf(b)] for a, b in kernels]
     with ThreadPoolExecutor(max_workers=shards) as ex:
@@ -544,7 +570,8 @@ def run(ctx):
                 "(exact in binary64) or general grids incl. flipped extents, 20% through real PROJ (laea, merc, stere, longlat, eqc); "
                 "points inside / exactly on cell borders and outer edges / one ulp beside them / outside / NaN, inf, 1e30, 2^63, -0.0; "
                 "integer-valued data with fill markers and NaN (sum/average only), fill_value, skipna, empty_bucket_value, category "
-                "sets; data handed over as dask float64 (80%), as xarray.DataArray (10%) or as int64 (10%); in a third of the cases a random "
+                "sets; data handed over as dask arrays or (10%) xarray.DataArray, of dtype float64 (half the cases) or int64 / uint8 / uint16 / uint32 / "
+                "uint64 / int8 / int16 / int32 / float32 with zeros, repeated values and values near the top of the type's range; in a third of the cases a random "
                 "history of 2-8 eager get_count/get_sum/get_min/get_max/get_average/get_fractions calls on ONE object (re-chunked idxs, "
                 "memoised counts; 40% of them touch get_count/get_fractions only after another statistic) compared with fresh-object "
                 "results; min/max/abs-max of a second data array (-data, same chunking) evaluated in the same dask.compute as the first; two (quick) or three (thorough) random dask chunk layouts (1-D and 2-D, chunk size 1, ragged) of coordinates and data per case. "
@@ -586,6 +613,7 @@ def run(ctx):
         ctx.count("skipna:%s" % case["skipna"])
         ctx.count("categories:" + ("derived" if case["cats"] is None else "given"))
         ctx.count("data_variant:" + case.get("variant", "dask"))
+        ctx.count("data_dtype:" + case.get("dtype", "float64") + ("" if case.get("data_dtype", "float64") == case.get("dtype", "float64") else "(sum data float64)"))
         ctx.count("empty_bucket_value:" + ("0" if unhex(case["ebv"]) == 0 else "nan" if case["ebv"] == "nan" else "number"))
         for op, _ in case.get("history", []):
             ctx.count("history_call:" + op)
